@@ -110,9 +110,11 @@ func (m *Metadata) Validate() error {
 
 	var lastID multicodec.Code
 	for _, transport := range m.protocols {
-		if lastID > transport.ID() {
+		id := transport.ID()
+		if lastID > id {
 			return errors.New("metadata transports must be sorted by ID")
 		}
+		lastID = id
 	}
 
 	//TODO: Assert all IDs are known and transports are unique once we discuss what's techincally valid?
